@@ -196,7 +196,10 @@ class CallMixin:
                 st.frames.pop()
         fr.loop_map = loop_ordinals(f.node)
         is_gen = any(isinstance(x, (ast.Yield, ast.YieldFrom)) for x in ast.walk(f.node) if not isinstance(x, ast.Lambda))
-        fr.yields = [] if is_gen else None
+        fr.yields = True if is_gen else None
+        if is_gen:
+            # a generator is modelled by the list of the values it yields (no interleaving with the consumer is modelled)
+            fr.env["__yields__"] = st.alloc(HeapObj("list", "list", items=[]))
         st.frames.append(fr)
         try:
             body = f.node.body
@@ -206,10 +209,10 @@ class CallMixin:
                 self.exec_block(st, body)
             except ReturnSig as r:
                 if is_gen:
-                    return st.alloc(HeapObj("list", "list", items=fr.yields))
+                    return fr.env["__yields__"]
                 return r.value
             if is_gen:
-                return st.alloc(HeapObj("list", "list", items=fr.yields))
+                return fr.env["__yields__"]
             return NONE
         finally:
             st.frames.pop()
@@ -218,7 +221,14 @@ class CallMixin:
         fr = st.frame
         if getattr(fr, "yields", None) is None:
             raise OutsideSubset("yield")
-        fr.yields.append(self.ev(st, n.value) if n.value is not None else NONE)
+        v = self.ev(st, n.value) if n.value is not None else NONE
+        ok, cur = self.env_lookup(fr.env, "__yields__")
+        if isinstance(cur, HeapRef):
+            st.obj(cur).items.append(v)
+        elif isinstance(cur, Z) and cur.t.kind == "seq":
+            fr.env["__yields__"] = Z(cur.t, z3.Concat(cur.e, z3.Unit(self.to_z(st, v, cur.t.args[0]).e)))
+        else:
+            raise OutsideSubset("yield")
         return NONE
 
     # ----------------------------------------------------------------- spec bodies (functional evaluation, merged)
@@ -507,6 +517,10 @@ class CallMixin:
             d = self.to_z(st, self.ev_spec(st, A[0]), T("dyn"))
             k = self.to_z(st, self.ev_spec(st, A[1]), T("str"))
             return zbool(z3.Select(smt.dyn_acc("DDict", 0, d.e), k.e) != smt.dyn_ctor("DAbsent"))
+        if name == "d_ref":
+            d = self.to_z(st, self.ev_spec(st, A[0]), T("dyn")).e
+            cls = ast.literal_eval(A[1]) if len(A) > 1 else None
+            return Z(T("ref", (), cls), smt.dyn_acc("DRef", 0, d))
         if name in ("d_int", "d_float", "d_list", "d_chars"):
             d = self.to_z(st, self.ev_spec(st, A[0]), T("dyn")).e
             if name == "d_int":
@@ -661,6 +675,9 @@ class CallMixin:
         cls = recv.t.cls
         if cls is None:
             raise OutsideSubset("method call on an object of unknown class")
+        xkey = f"ext:{cls}.{mr.name}"
+        if xkey in self.contracts:      # a method of an external class that is modelled by a class table entry only
+            return self.apply_contract(st, self.contracts[xkey], [recv] + list(args), kwargs, xkey)
         groups: Dict[str, Tuple[list, Any]] = {}
         missing = []
         for c in self.concrete_subclasses(cls):
